@@ -257,7 +257,7 @@ def _wave_drag(rng, nx, ny, sym):
     widths, lsp = _strip_geom(rng, ny)
     chords = rng.uniform(0.5, 3.0, size=ny)
     toc = rng.uniform(0.05, 0.2, size=ny - 1)
-    CL = rng.uniform(0.0, 0.8)
+    CL = rng.uniform(-0.8, 0.8)
     # crest-critical Mach number of this case, to place M on either side of it with a guard band
     area = 0.5 * (chords[:-1] + chords[1:]) * widths
     ac = np.sum(widths / lsp * area) / area.sum(); at = np.sum(toc * area) / area.sum()
